@@ -23,6 +23,7 @@ import Fir.Proofs.SimdU8x3Lemmas
 import Fir.Proofs.SimdVertU16Lemmas
 import Fir.Proofs.SimdU8x1Lemmas
 import Fir.Proofs.SimdU8x2Lemmas
+import Fir.Proofs.SimdU16x1Lemmas
 
 namespace Fir.C02
 open Fir
@@ -467,5 +468,27 @@ theorem u8x2_sse4_source_as_modelled :
     Fir.Gen.u8x2_sse4_one_row_skeleton = "normalizer.precision() ; _mm_set1_epi32(1 << (precision - 2)) ; chunks_exact(8) ; remainder() ; simd_utils::loadu_si128(k, 0) ; simd_utils::loadu_si128(src_row, x) ; _mm_shuffle_epi8(source, pix_sh1) ; _mm_shuffle_epi8(ksource, coeff_sh1) ; _mm_add_epi32(sss, _mm_madd_epi16(pix, mmk)) ; _mm_shuffle_epi8(source, pix_sh2) ; _mm_shuffle_epi8(ksource, coeff_sh2) ; _mm_add_epi32(sss, _mm_madd_epi16(pix, mmk)) ; chunks_exact(4) ; remainder() ; _mm_set_epi16(k[3], k[2], k[3], k[2], k[1], k[0], k[1], k[0]) ; simd_utils::loadl_epi64(src_row, x) ; _mm_shuffle_epi8(source, pix_sh3) ; _mm_add_epi32(sss, _mm_madd_epi16(pix, mmk)) ; is_empty() ; _mm_set_epi16(0, pixels[5], 0, pixels[4], pixels[3], pixels[1], pixels[2], pixels[0],) ; _mm_set_epi16(0, coeffs[2], 0, coeffs[2], coeffs[1], coeffs[0], coeffs[1], coeffs[0],) ; _mm_add_epi32(sss, _mm_madd_epi16(pix, mmk)) ; _mm_extract_epi64::<0>(sss) ; _mm_extract_epi64::<1>(sss) ; saturating_add((hi >> 32) as i32) ; saturating_add((hi & 0xffffffff) as i32) ; normalizer.clip(a32) ; normalizer.clip(l32) | coeffs[i] = coeff ; pixels[i * 2] = pixel[0] as i16 ; pixels[i * 2 + 1] = pixel[1] as i16 ; let a32 = ((lo >> 32) as i32).saturating_add((hi >> 32) as i32) ; let l32 = ((lo & 0xffffffff) as i32).saturating_add((hi & 0xffffffff) as i32) ; dst_row.get_unchecked_mut(dst_x).0 = [l8, a8]" ∧
     Fir.Gen.u8x2_sse4_set_dst_pixel = "let l32x2 = _mm_extract_epi64::<0>(raw) ; let a32x2 = _mm_extract_epi64::<1>(raw) ; let l32 = ((l32x2 >> 32) as i32).saturating_add((l32x2 & 0xffffffff) as i32) ; let a32 = ((a32x2 >> 32) as i32).saturating_add((a32x2 & 0xffffffff) as i32) ; let l8 = normalizer.clip(l32) ; let a8 = normalizer.clip(a32) ; d_row.get_unchecked_mut(dst_x).0 = [l8, a8]" := by
   refine ⟨rfl, rfl, rfl, rfl, rfl, rfl, rfl, rfl, rfl, rfl⟩
+
+/-! ### single-channel 16-bit images: the SSE4.1 horizontal kernels of U16 (src/convolution/u16x1/sse4.rs)
+
+    Two 64-bit accumulators; pairs of pixels moved into the low halves of the lanes by `_mm_shuffle_epi8` (masks from the source),
+    multiplied with pairs of `i32` coefficients by `_mm_mul_epi32` and added by `_mm_add_epi64`; steps of 8 / 4 / 2 coefficients
+    and a last single one; the two lanes and the rounding constant summed in wrapping `i64`, the portable `Normalizer32::clip`.
+    All additions are 64-bit wrapping additions, as in the portable kernel, so equality needs no headroom premise.
+    The four-row kernel uses masks of other names; they are proved to be the same masks, and its call sequence is pinned. -/
+
+theorem u16x1_sse4_eq_portable (p : Nat) (row : List Int) (start : Nat) (ks : List Int) :
+    Fir.SimdU16x1.pixel p row start ks = clip16 (2 ^ (p - 1) + Fir.SimdU16x1.dot16 row ks start) p :=
+  Fir.Proofs.U16x1.pixel_eq_portable p row start ks
+
+theorem u16x1_sse4_four_rows_masks :
+    Fir.Gen.u16x1_sse4_four_l01 = Fir.Gen.u16x1_sse4_l01 ∧ Fir.Gen.u16x1_sse4_four_l23 = Fir.Gen.u16x1_sse4_l23 ∧
+    Fir.Gen.u16x1_sse4_four_l45 = Fir.Gen.u16x1_sse4_l45 ∧ Fir.Gen.u16x1_sse4_four_l67 = Fir.Gen.u16x1_sse4_l67 := by
+  refine ⟨?_, ?_, ?_, ?_⟩ <;> decide
+
+theorem u16x1_sse4_source_as_modelled :
+    Fir.Gen.u16x1_sse4_one_row_skeleton = "normalizer.precision() ; _mm_set1_epi64x(0) ; chunks_exact(8) ; remainder() ; _mm_set_epi64x(k[1] as i64, k[0] as i64) ; _mm_set_epi64x(k[3] as i64, k[2] as i64) ; _mm_set_epi64x(k[5] as i64, k[4] as i64) ; _mm_set_epi64x(k[7] as i64, k[6] as i64) ; simd_utils::loadu_si128(src_row, x) ; _mm_shuffle_epi8(source, l01_shuffle) ; _mm_add_epi64(ll_sum, _mm_mul_epi32(l_i64x2, coeff01_i64x2)) ; _mm_shuffle_epi8(source, l23_shuffle) ; _mm_add_epi64(ll_sum, _mm_mul_epi32(l_i64x2, coeff23_i64x2)) ; _mm_shuffle_epi8(source, l45_shuffle) ; _mm_add_epi64(ll_sum, _mm_mul_epi32(l_i64x2, coeff45_i64x2)) ; _mm_shuffle_epi8(source, l67_shuffle) ; _mm_add_epi64(ll_sum, _mm_mul_epi32(l_i64x2, coeff67_i64x2)) ; chunks_exact(4) ; remainder() ; _mm_set_epi64x(k[1] as i64, k[0] as i64) ; _mm_set_epi64x(k[3] as i64, k[2] as i64) ; simd_utils::loadl_epi64(src_row, x) ; _mm_shuffle_epi8(source, l01_shuffle) ; _mm_add_epi64(ll_sum, _mm_mul_epi32(l_i64x2, coeff01_i64x2)) ; _mm_shuffle_epi8(source, l23_shuffle) ; _mm_add_epi64(ll_sum, _mm_mul_epi32(l_i64x2, coeff23_i64x2)) ; chunks_exact(2) ; remainder() ; _mm_set_epi64x(k[1] as i64, k[0] as i64) ; simd_utils::loadl_epi32(src_row, x) ; _mm_shuffle_epi8(source, l01_shuffle) ; _mm_add_epi64(ll_sum, _mm_mul_epi32(l_i64x2, coeff01_i64x2)) ; first() ; _mm_set_epi64x(0, k as i64) ; get_unchecked(x) ; _mm_set_epi64x(0, pixel) ; _mm_add_epi64(ll_sum, _mm_mul_epi32(source, coeff01_i64x2)) ; _mm_storeu_si128(ll_buf.as_mut_ptr() as *mut __m128i, ll_sum) ; normalizer.clip(ll_buf[0] + ll_buf[1] + half_error)" ∧
+    Fir.Gen.u16x1_sse4_four_rows_skeleton = "normalizer.precision() ; _mm_set1_epi64x(0) ; chunks_exact(8) ; remainder() ; _mm_set_epi64x(k[1] as i64, k[0] as i64) ; _mm_set_epi64x(k[3] as i64, k[2] as i64) ; _mm_set_epi64x(k[5] as i64, k[4] as i64) ; _mm_set_epi64x(k[7] as i64, k[6] as i64) ; simd_utils::loadu_si128(src_rows[i], x) ; _mm_shuffle_epi8(source, l0l1_shuffle) ; _mm_add_epi64(sum, _mm_mul_epi32(l0l1_i64x2, coeff01_i64x2)) ; _mm_shuffle_epi8(source, l2l3_shuffle) ; _mm_add_epi64(sum, _mm_mul_epi32(l2l3_i64x2, coeff23_i64x2)) ; _mm_shuffle_epi8(source, l4l5_shuffle) ; _mm_add_epi64(sum, _mm_mul_epi32(l4l5_i64x2, coeff45_i64x2)) ; _mm_shuffle_epi8(source, l6l7_shuffle) ; _mm_add_epi64(sum, _mm_mul_epi32(l6l7_i64x2, coeff67_i64x2)) ; chunks_exact(4) ; remainder() ; _mm_set_epi64x(k[1] as i64, k[0] as i64) ; _mm_set_epi64x(k[3] as i64, k[2] as i64) ; simd_utils::loadl_epi64(src_rows[i], x) ; _mm_shuffle_epi8(source, l0l1_shuffle) ; _mm_add_epi64(sum, _mm_mul_epi32(l0l1_i64x2, coeff01_i64x2)) ; _mm_shuffle_epi8(source, l2l3_shuffle) ; _mm_add_epi64(sum, _mm_mul_epi32(l2l3_i64x2, coeff23_i64x2)) ; chunks_exact(2) ; remainder() ; _mm_set_epi64x(k[1] as i64, k[0] as i64) ; simd_utils::loadl_epi32(src_rows[i], x) ; _mm_shuffle_epi8(source, l0l1_shuffle) ; _mm_add_epi64(ll_sum[i], _mm_mul_epi32(l_i64x2, coeff01_i64x2)) ; first() ; _mm_set_epi64x(0, k as i64) ; get_unchecked(x) ; _mm_set_epi64x(0, pixel) ; _mm_add_epi64(ll_sum[i], _mm_mul_epi32(source, coeff01_i64x2)) ; _mm_storeu_si128(ll_buf.as_mut_ptr() as *mut __m128i, ll_sum[i]) ; normalizer.clip(ll_buf.iter().sum::<i64>() + half_error)" := by
+  constructor <;> rfl
 
 end Fir.C02
